@@ -1,8 +1,8 @@
-\* exhaustive, every interleaving of SDK-internal and environment steps: profiles a b c d2 e e2 f g
+\* thorough: larger profiles t1..t5 (three calls; standalone stream with two calls; OAuth with cancel and two closes; ids)
 SPECIFICATION Spec
 CONSTANTS
   NC = 3
-  Profiles <- ProfMC
+  Profiles <- ProfMCT
   FixCancel = FALSE
   FixStream = FALSE
 INVARIANTS TypeOK SessionHeader VersionHeader OnePostPerMessage Standalone PerMessage Usable GoneStops GoneNoDelete GoneFailsAll
